@@ -200,6 +200,11 @@ func (d *Decrypter) Start() {
 				return
 			}
 
+			if decoded.Payload.MHDR.MType != protocol.UnconfirmedDataUp &&
+				decoded.Payload.MHDR.MType != protocol.ConfirmedDataUp {
+				lg.Info("Ignoring message with type %s from gateway", decoded.Payload.MHDR.MType)
+				return
+			}
 			d.verifyAndDecryptMessage(decoded)
 		}(m)
 	}
